@@ -580,6 +580,19 @@ class Enumerator(object):
                 path.effects.append('}')
                 path.value = ('unit',)
                 return [path]
+        if k == 'AssignOp' and not node.get('_anf') and self.needs_paths(node['r']):
+            # `x += match .. { .. }`: the right-hand side is decided path by path, then added
+            self._anf_n = getattr(self, '_anf_n', 0) + 1
+            sid = -(2000000 + self._anf_n)
+            node2 = dict(node, r={'k': 'Local', 'id': sid, 'name': '$a%d' % self._anf_n, 'ty': node['r'].get('ty'), 'sp': node['r'].get('sp')}, _anf=True)
+            out = []
+            for p in self.run(node['r'], path):
+                if p.done:
+                    out.append(p)
+                    continue
+                p.env[sid] = p.value
+                out.extend(self.run(node2, p))
+            return out
         if k in ('Assign',) and self.needs_paths(node['r']):
             out = []
             for p in self.run(node['r'], path):
